@@ -132,8 +132,8 @@ TEXT = {
     },
     "C06": {
         "text": "Theorem C06_first: for every prefix schedule, a failure taken while no abort is latched is recorded for good, broadcasts the abort in that step, no evaluation is started in that step or after, "
-                "and every return of every continuation is exactly Err(that failure); C06_after_abort_keeps_error covers the 'before any termination request' clause. Compared with the real controller with failures and "
-                "non-finite values at random positions, second failures, later results below the target. Partial: the mapping of child exit status/unparsable output to errors (process.rs) is covered by C16's process-level checks."
+                "and every return of every continuation is exactly Err(that failure); C06_after_abort_keeps_error covers the 'before any termination request' clause. C06_returns_once_ended: once nothing is in flight after the failure the run HAS returned, exactly once, with Err(that failure). C06_child_not_ok / C06_failure_iff / C06_failure_kind state outright which children fail an evaluation (exit status judged by success() first - an extracted source fact -, ill-shaped output, non-finite value) and that each kind is told apart. Compared with the real controller with failures and "
+                "non-finite values at random positions, second failures, later results below the target. The mapping of child exit status / unparsable output to errors (process.rs) is tied to the real binary by K-proc."
                 " Raw predicate: siblings in flight are told to abort. K-proc's failure family (non-zero exit with valid output, garbage, unknown fields, empty, out-of-range number) is part of this check.",
         "design_ref": "7 (C06)", "note": CTL_NOTE,
         "technique": "Lean 4 proof over all continuations of the controller state machine + differential correspondence",
